@@ -2,7 +2,7 @@
    Runtime half (socket really closed, goroutine gone, descriptors and registry back to baseline under churn, TLS
    handshake failures) is observed by the harness; see DESIGN 4/C19. *)
 From Coq Require Import String.
-From GR Require Import Base Resp Handler Exec Conn ConnFacts LoopFacts.
+From GR Require Import Base Resp Handler Exec Conn ConnFacts LoopFacts Lifecycle LifecycleFacts LifecycleThms.
 
 Section C19.
   Variable hstate : Type.
@@ -25,7 +25,21 @@ Section C19.
     fst (serve hstate handle regexp_src fw_text ss hs tls input) <> EndPanic /\ fst (serve hstate handle regexp_src fw_text ss hs tls input) <> EndFuel.
   Proof. exact (serve_no_panic hstate handle regexp_src fw_text). Qed.
 End C19.
+
+(* the goroutine / registry side, over all schedules of the lifecycle transition system: a connection goroutine that has
+   returned has closed its socket and is not registered; when Stop returns every one of them has returned *)
+Theorem C19_done_means_released : forall p t ls c, let s := lrun (init p t) ls in
+  List.In c (conns s) -> ct_st c = CDone -> ct_open c = false /\ (pc s <> PStop4 -> ~ List.In (ct_id c) (registry s) \/ exists c', List.In c' (conns s) /\ ct_id c' = ct_id c /\ ct_st c' = CRegistered).
+Proof.
+  intros p t ls c s Hc Hd. pose proof (reachable_inv p t ls) as I. fold s in I. split; [exact (i_done s I c Hc Hd)|].
+  intros _. destruct (List.in_dec Nat.eq_dec (ct_id c) (registry s)) as [Hin|Hni]; [right; exact (i_reg s I _ Hin)|left; exact Hni].
+Qed.
+Theorem C19_failed_handshake_releases : forall s s' id, lstep s (LHandshakeFail id) = Some s' \/ lstep s (LReject id) = Some s' ->
+  registry s' = registry s /\ (forall c, List.In c (conns s') -> ct_id c = id -> ct_st c = CDone /\ ct_open c = false).
+Proof. intros s s' id H. destruct (handshake_failure_contained s s' id H) as (_ & _ & _ & _ & R & _ & _ & _ & D). split; assumption. Qed.
 Print Assumptions C19_released.
+Print Assumptions C19_done_means_released.
+Print Assumptions C19_failed_handshake_releases.
 Print Assumptions C19_loop_ends.
 
 Example C19_ex :
